@@ -48,6 +48,9 @@ def run(ctx):
         cases += r.cases
     ctx.exhaustive = True
     u = A0 / 4
+    hom = [c for c in cases if c['kind'] == 'homog']
+    for a_, b_ in zip(hom, hom[1:] + hom[:1]):
+        a_['next'] = {k: v for k, v in b_.items() if k != 'next'} if a_['crystal'] == b_['crystal'] else None
     for ci, c in enumerate(cases):
         n = len(c['atoms'])
         variants = [('asis', np.arange(n), np.zeros(3))]
@@ -70,7 +73,7 @@ def run(ctx):
                 bad = ('%s raised %s at %s:%s' % (c['kind'], excname(e), tb.filename.split('/')[-1], tb.name), repr(e)[:300])
             if bad:
                 ctx.violation('%s[%s,%s]: %s' % (c['kind'], c['crystal'], vname, bad[0]), bad[1],
-                              {k: v for k, v in c.items() if k != 'atoms'})
+                              {k: v for k, v in c.items() if k not in ('atoms', 'next')})
             ctx.traces += 1
     # binding self-test: corrupted expectations must be rejected
     import copy
@@ -79,6 +82,7 @@ def run(ctx):
     c1['atoms'][k]['slip8'][0] += 1
     n1 = len(c1['atoms'])
     c2 = copy.deepcopy([c for c in cases if c['kind'] == 'homog'][0])
+    c2['next'] = None
     c2['g'][0][1] = [c2['g'][0][1][0] + 1, c2['g'][0][1][1]]
     if slip_case(am, defect, c1, np.arange(n1), np.arange(n1), np.zeros(3), u) is None or \
             homog_case(am, defect, c2, np.arange(len(c2['atoms'])), None, np.zeros(3), u) is None:
@@ -86,7 +90,7 @@ def run(ctx):
     ctx.extra['corrupted_expectations_rejected'] = True
     ctx.sample({'kind': 'S->C slip case (first atoms)', **{k: v for k, v in cases[0].items() if k != 'atoms'}, 'atoms': cases[0]['atoms'][:6]})
     hc = [c for c in cases if c['kind'] == 'homog'][0]
-    ctx.sample({'kind': 'S->C homogeneous case', **{k: v for k, v in hc.items() if k != 'atoms'}})
+    ctx.sample({'kind': 'S->C homogeneous case', **{k: v for k, v in hc.items() if k not in ('atoms', 'next')}})
 
 
 def slip_case(am, defect, c, perm, inv, shift, u):
@@ -148,6 +152,21 @@ def homog_case(am, defect, c, perm, inv, shift, u):
         return ('first strain invariant is not the trace of the strain', '')
     if np.abs(st.nye).max() > 1e-8:
         return ('Nye tensor does not vanish for a homogeneous deformation', 'max %r' % np.abs(st.nye).max())
+    # ---- history on ONE Strain object: read derived properties, deform the system in place, re-solve, read again --------------
+    if c.get('next') is not None:
+        c2 = c['next']
+        den2 = c2.get('fden', 64)
+        F2 = np.array(c2['f64'], dtype=float) / den2
+        _ = (st.strain, st.rotation, st.invariant1, st.nye)             # derived values are now cached inside the object
+        s1.box_set(vects=s0.box.vects @ F2.T, origin=o)
+        s1.atoms.pos[:] = (s0.atoms.pos - o) @ F2.T + o
+        st.solve_G()
+        G2 = mat(c2['g'])
+        if not np.allclose(st.G, G2, atol=1e-9):
+            return ('re-solved lattice-correspondence tensor is not the inverse transpose of the new F', '')
+        if not np.allclose(st.strain, mat(c2['strain']), atol=1e-9) or not np.allclose(st.rotation, mat(c2['rotation']), atol=1e-9) \
+                or not np.allclose(st.invariant1, fr(c2['inv1']), atol=1e-9):
+            return ('after re-solving on the same object strain / rotation / invariant still belong to the previous deformation', '')
     # the function interface with explicit p vectors taken from the reference crystal
     nl0 = s0.neighborlist(cutoff=np.sqrt(c['cut2']) * u)
     pv = s0.dvect(0, nl0[0])
